@@ -84,3 +84,6 @@ pub fn set_thread_tag(tag: i64) {
 pub fn thread_tag() -> i64 {
     TAG.with(|t| t.get())
 }
+
+// ---- re-exports of per-component hooks (each defined next to the code it exposes) ----
+pub use crate::util::rust_util::rev_group::verif_groups;
